@@ -19,6 +19,7 @@ deriving DecidableEq, Repr
 structure Snap where
   fileId : String
   created : String
+  updated : String
   format : String
   version : List Int
   blocks : Nat
